@@ -329,6 +329,67 @@ def run_meshes(mutate=None):
     return dict(obls=obls, paths=n, sources=[v.info() for v in mods.values()], consistent=True)
 
 
+def run_solution_equals(mutate=None):
+    """Solution.equals / __eq__: two solutions are equal exactly when device, options, loaded step, applied potential, terminal currents, epsilon, the raw
+    data of the loaded step and the per-step records are all equal (and, for ==, the creation times).  Every component is a stand-in whose own
+    equality is a free boolean; the paths of the short-circuit evaluation are enumerated."""
+    mut = [(o, n) for (m, o, n) in (mutate or []) if m == SOL]
+    L = instrument.load(SOL, mutate=mut, vc=vcm.VC())
+    NAMES = ("device", "options", "solve_step", "applied_vector_potential", "terminal_currents", "disorder_epsilon", "tdgl_data", "dynamics")
+
+    def body():
+        Real = L["Solution"]
+        ParamReal = L.ns["Parameter"]
+        flags = {}
+
+        class Comp:
+            def __init__(self, name):
+                self.name = name
+
+            def __eq__(self, o):
+                if self.name not in flags:
+                    flags[self.name] = SB(z3.Bool(f"same_{self.name}"))
+                return bool(flags[self.name])
+
+            def __ne__(self, o):
+                return not self.__eq__(o)
+            __hash__ = object.__hash__
+
+        class ParamComp(Comp, ParamReal):      # a Parameter: compared with ==
+            def __init__(self, name):
+                Comp.__init__(self, name)
+
+        class S2(Real):
+            solve_step = None
+            time_created = None
+
+        def mk():
+            s = S2.__new__(S2)
+            for nm in NAMES:
+                if nm == "solve_step":
+                    continue
+                setattr(s, nm, ParamComp(nm) if nm == "applied_vector_potential" else Comp(nm))
+            return s
+        a, b = mk(), mk()
+        S2.solve_step = Comp("solve_step")
+        S2.time_created = Comp("time_created")
+        want_all = lambda: z3.And(*[flags[nm].e if nm in flags else z3.BoolVal(True) for nm in NAMES])
+        r1 = a.equals(b)
+        # components that were never asked on this path: the short-circuit evaluation stopped at an unequal one, or they are not compared at all - a result
+        # True with a component never compared is the failure this obligation looks for
+        asked = set(flags)
+        check("C14.equals.true_only_if_every_component_was_compared_and_equal", z3.BoolVal(r1 is False or asked >= set(NAMES)), note=f"compared: {sorted(asked)}")
+        check("C14.equals.is_the_conjunction_of_the_component_equalities", z3.BoolVal(isinstance(r1, bool)) if not isinstance(r1, bool) else (z3.BoolVal(r1) == want_all()))
+        r2 = (a == b)
+        ts = flags.get("time_created")
+        # (whether == also demands the same creation time is the library's choice; the property needs: == never holds for solutions that differ in a component)
+        check("C14.eq_operator.holds_only_for_solutions_equal_in_every_component", z3.BoolVal(isinstance(r2, bool)) if not isinstance(r2, bool) else z3.Implies(z3.BoolVal(r2), want_all()))
+        check("C14.equals.a_solution_equals_itself", z3.BoolVal(a.equals(a) is True))
+        check("C14.equals.other_types_are_unequal", z3.BoolVal(a.equals("not a solution") is False))
+    obls, n = explore(body, safety=False)
+    return dict(obls=obls, paths=n, sources=[L.info()], consistent=True)
+
+
 def run_param_pickle(mutate=None):
     from checks import c16
     r = c16.run_induction(mutate)
@@ -348,6 +409,7 @@ def units():
             Unit("Solution solve_step", SOL + ":Solution.__init__ / load_tdgl_data", run_solve_step, props=["C14"], timeout=300),
             Unit("save_time_step -> TDGLData.from_hdf5", "tdgl.solver.runner:DataHandler.save_fixed_values / save_time_step -> tdgl.solution.data:TDGLData.from_hdf5 / load_state_data",
                  lambda m=None: __import__("checks.writer_common", fromlist=["x"]).run_frame_round_trip(m, prefixes=("C14.", "C05.")), props=["C14", "C05"], timeout=300),
+            Unit("Solution.equals", SOL + ":Solution.equals / __eq__", run_solution_equals, props=["C14"], timeout=300),
             Unit("Layer.to_hdf5/from_hdf5", "tdgl.device.layer:Layer.to_hdf5 / from_hdf5", run_layer, props=["C14"], timeout=300),
             Unit("EdgeMesh/Mesh/DynamicsData to_hdf5/from_hdf5", "tdgl.finite_volume.edge_mesh:EdgeMesh, tdgl.finite_volume.mesh:Mesh, tdgl.solution.data:DynamicsData", run_meshes, props=["C14"], timeout=300),
             Unit("Device.to_hdf5/from_hdf5", "tdgl.device.device:Device.to_hdf5 / Device.from_hdf5",
@@ -516,6 +578,9 @@ MUTANTS = [
     dict(name="edge mesh directions loaded from centers", edits=[("tdgl.finite_volume.edge_mesh", "directions=np.array(h5group[\"directions\"]),", "directions=np.array(h5group[\"centers\"]),")]),
     dict(name="mesh areas not stored", edits=[("tdgl.finite_volume.mesh", "            h5group[\"areas\"] = self.areas\n", "")]),
 ] + __import__("checks.writer_common", fromlist=["x"]).MUTANTS_FRAME + [
+    dict(name="solutions compared without their per-step records", units=["Solution.equals"], edits=[(SOL, "            and (self.tdgl_data == other.tdgl_data)\n            and (self.dynamics == other.dynamics)\n", "            and (self.tdgl_data == other.tdgl_data)\n")]),
+    dict(name="solutions compared without the loaded step", units=["Solution.equals"], edits=[(SOL, "            and (self.solve_step == other.solve_step)\n", "")]),
+    dict(name="benign: == ignores the creation time", units=["Solution.equals"], edits=[(SOL, "        return self.equals(other, require_same_timestamp=True)", "        return self.equals(other)")], expect="pass"),
     dict(name="composite pickle drops slots", edits=[(P_, "        for name in (\"time_dependent\", \"_cache\", \"_use_cache\"):\n            if hasattr(self, name):\n                state[name] = getattr(self, name)\n        return state", "        return state")]),
 ]
 
